@@ -11,7 +11,7 @@ missed=0
 for d in seeded/*/; do
   n=$(basename "$d")
   p=$(python3 -c "import json;print(json.load(open('$d/meta.json'))['breaks_property'])")
-  git -C "$R" apply "$d/patch.diff" || { echo "$n: patch does not apply"; continue; }
+  git -C "$R" apply "$(pwd)/$d/patch.diff" || { echo "$n: patch does not apply"; continue; }
   ./check "$p" quick > /tmp/all_seeds.$$.log 2>&1; rc=$?
   kinds=$(grep -o "^  ([a-zA-Z0-9:_-]*)" /tmp/all_seeds.$$.log | sort | uniq -c | tr '\n' ' ')
   proof=$(grep -o "proof [A-Za-z]*" /tmp/all_seeds.$$.log | tail -1)
